@@ -171,36 +171,31 @@ namespace bloch::runtime {
         }
         if (q >= 0 && q < static_cast<int>(m_measured.size()))
             m_measured[q] = false;
-        // Put qubit q into |0>.
-        // If the state already has amplitude in the |...0> subspace, zero the |...1> subspace
-        // and renormalize. If all amplitude is in |...1>, deterministically move it into
-        // the |...0> subspace (equivalent to an X on a measured |1>), avoiding NaNs.
+        // Put qubit q into |0> without disturbing the other qubits: reset is a measurement
+        // whose result is discarded, followed by a flip when that result was 1. Sample the
+        // branch with the Born rule (projecting onto |0> unconditionally would post-select
+        // every qubit entangled with q), then move the kept branch into the q=0 subspace.
         size_t bit = size_t{1} << q;
-        double norm0 = 0.0;
+        double p0 = 0.0;
+        double p1 = 0.0;
         for (size_t i = 0; i < m_state.size(); ++i) {
-            if (!(i & bit))
-                norm0 += std::norm(m_state[i]);
+            if (i & bit)
+                p1 += std::norm(m_state[i]);
+            else
+                p0 += std::norm(m_state[i]);
         }
-
-        if (norm0 == 0.0) {
-            // All amplitude is in the |...1> subspace: swap it into |...0>.
-            for (size_t i = 0; i < m_state.size(); ++i) {
-                if (i & bit) {
-                    size_t j = i ^ bit;  // flip target bit to 0
-                    m_state[j] = m_state[i];
-                    m_state[i] = 0.0;
-                }
-            }
-        } else {
-            // Zero |...1> and renormalize |...0>
-            double inv = 1.0 / std::sqrt(norm0);
-            for (size_t i = 0; i < m_state.size(); ++i) {
-                if (i & bit) {
-                    m_state[i] = 0.0;
-                } else {
-                    m_state[i] *= inv;
-                }
-            }
+        std::uniform_real_distribution<double> dist(0.0, 1.0);
+        double r = dist(rng);
+        bool one = r < p1;
+        if (!one && p0 == 0.0)
+            one = true;  // all amplitude is in |...1>: nothing to sample
+        double inv = 1.0 / std::sqrt(one ? p1 : p0);
+        for (size_t i = 0; i < m_state.size(); ++i) {
+            if (i & bit)
+                continue;
+            size_t j = i | bit;
+            m_state[i] = (one ? m_state[j] : m_state[i]) * inv;
+            m_state[j] = 0.0;
         }
 
         BLOCH_VERIF_OP("reset", q, -1, 0.0, -1);
